@@ -129,7 +129,7 @@ class IncrementalLoop:
 
 
 class OptBase(Contract):
-    props = ("C07", "C13", "C15")
+    props = ("C07", "C13", "C15", "C12")
     diff = "eval"
     loop_spec = LOOP
 
@@ -256,7 +256,7 @@ class IncrementalOptimizer(OptBase):
             s2 = z3.Solver()
             s2.add(*solver._solver.assertions())
             s2.add(*base)
-            out.append(Clause("frame[scopes pushed by the loop are popped: stack == Base]", z3.BoolVal(solver._solver.num_scopes() == 0), props=("C13",), kind="frame"))
+            out.append(Clause("frame[scopes pushed by the loop are popped: stack == Base]", z3.BoolVal(solver._solver.num_scopes() == 0), props=("C13", "C12"), kind="frame"))
             return out
         G = solver._solver
         info = solver._psvc_loop_info
@@ -289,7 +289,7 @@ class IncrementalOptimizer(OptBase):
                 goal = Implies(And(*[X.rename(f) for f in base]), no_worse(kind, val, X.value(variable)))
                 out.append(Clause("post[when the optimiser finishes (unsat, or 'Found optimum') the result is optimal]", goal, hyps=hyps, props=("C07",), kind="sound"))
         # C13: whatever the exit, the loop leaves the stack as it found it
-        out.append(Clause("frame[scopes pushed by the loop are popped: stack == Base]", And(z3.BoolVal(len(G.frames) == info["base_len"]), sym._term(G.pushed_count()) == 0), props=("C13",), kind="frame"))
+        out.append(Clause("frame[scopes pushed by the loop are popped: stack == Base]", And(z3.BoolVal(len(G.frames) == info["base_len"]), sym._term(G.pushed_count()) == 0), props=("C13", "C12"), kind="frame"))  # C12 depends on it: a blocking clause added inside a left-over scope is lost at the next pop
         return out
 
     def sentinels(self, P, ctx, case):
